@@ -310,14 +310,81 @@ func subLarge() mon.Sub {
 	}
 }
 
+// subLongRuns: "every valid stream": nothing bounds how MANY frames of a kind may follow each other. Runs of
+// 99 / 100 / 101 / 128 / 255 / 256 / 1000 / 5000 consecutive control frames (pings and pongs, a keep-alive running while a
+// slow message is produced), of empty continuation fragments, and of one-byte fragments sit between the fragments
+// of a message (and between messages); the same consumers must reassemble the message.
+func subLongRuns() mon.Sub {
+	runs := []int{99, 100, 101, 128, 255, 256, 257, 1000, 5000}
+	kinds := []string{"controls-inside", "empty-fragments", "tiny-fragments", "controls-between-messages", "mixed"}
+	return mon.Sub{
+		Name: "long-runs", Required: true,
+		N: func(t string) int {
+			if t == "thorough" {
+				return len(runs) * len(kinds) * 3
+			}
+			return len(runs) * len(kinds)
+		},
+		Do: func(c *mon.C) {
+			n := runs[c.I%len(runs)]
+			kind := kinds[c.I/len(runs)%len(kinds)]
+			side := []ref.Side{ref.SideServer, ref.SideClient, ref.SideNone}[(c.I/len(runs)/len(kinds)+c.I)%3]
+			ctl := func(i int) gen.Shape {
+				return gen.Shape{Op: []byte{ref.OpPing, ref.OpPong, ref.OpPing}[i%3], Fin: true, Len: []int{0, 2, 5, 125}[i%4]}
+			}
+			var shapes []gen.Shape
+			switch kind {
+			case "controls-inside":
+				shapes = append(shapes, gen.Shape{Op: ref.OpText, Fin: false, Len: 7})
+				for i := 0; i < n; i++ {
+					shapes = append(shapes, ctl(i))
+				}
+				shapes = append(shapes, gen.Shape{Op: ref.OpCont, Fin: false, Len: 3}, gen.Shape{Op: ref.OpCont, Fin: true, Len: 6})
+			case "empty-fragments":
+				shapes = append(shapes, gen.Shape{Op: ref.OpBinary, Fin: false, Len: 4})
+				for i := 0; i < n; i++ {
+					shapes = append(shapes, gen.Shape{Op: ref.OpCont, Fin: false, Len: 0})
+				}
+				shapes = append(shapes, gen.Shape{Op: ref.OpCont, Fin: true, Len: 5})
+			case "tiny-fragments":
+				shapes = append(shapes, gen.Shape{Op: ref.OpText, Fin: false, Len: 1})
+				for i := 0; i < n; i++ {
+					shapes = append(shapes, gen.Shape{Op: ref.OpCont, Fin: false, Len: 1})
+				}
+				shapes = append(shapes, gen.Shape{Op: ref.OpCont, Fin: true, Len: 0})
+			case "controls-between-messages":
+				shapes = append(shapes, gen.Shape{Op: ref.OpText, Fin: true, Len: 3})
+				for i := 0; i < n; i++ {
+					shapes = append(shapes, ctl(i))
+				}
+			case "mixed":
+				shapes = append(shapes, gen.Shape{Op: ref.OpBinary, Fin: false, Len: 2})
+				for i := 0; i < n; i++ {
+					if i%3 == 1 {
+						shapes = append(shapes, gen.Shape{Op: ref.OpCont, Fin: false, Len: i % 2})
+					} else {
+						shapes = append(shapes, ctl(i))
+					}
+				}
+				shapes = append(shapes, gen.Shape{Op: ref.OpCont, Fin: true, Len: 1})
+			}
+			shapes = append(shapes, gen.Shape{Op: ref.OpBinary, Fin: true, Len: 2})
+			if checkStream(c, shapes, side, 1) {
+				c.Classf("long-run|%s|%d|side%d", kind, n, side)
+				c.Sample(map[string]interface{}{"kind": kind, "run_length": n, "side": side})
+			}
+		},
+	}
+}
+
 func main() {
 	mon.Main(&mon.Spec{
 		Property: "C04",
 		Level:    "exploration",
-		Rule: "cases: every state-machine-valid complete frame sequence up to depth 3 (quick; alphabet {text,binary,cont} x fin x len{0,1,3} + {ping,pong} x len{0,2}) or depth 5 (thorough; len{0,2}), on server/client/zero side, then seeded random sequences of up to 40 frames with payloads across 125/126, 4096 and 65535/65536, and six stream shapes with messages around 1 MiB and 2 MiB (unfragmented, fragmented with the big part first / last / in the middle, control frames in between); " +
+		Rule: "cases: every state-machine-valid complete frame sequence up to depth 3 (quick; alphabet {text,binary,cont} x fin x len{0,1,3} + {ping,pong} x len{0,2}) or depth 5 (thorough; len{0,2}), on server/client/zero side, then seeded random sequences of up to 40 frames with payloads across 125/126, 4096 and 65535/65536, and six stream shapes with messages around 1 MiB and 2 MiB (unfragmented, fragmented with the big part first / last / in the middle, control frames in between), and runs of 99 ... 5000 consecutive control frames / empty fragments / one-byte fragments inside and between messages; " +
 			"each stream is run through 12 consumer configurations (manual Reader with full/lazy/no/ControlFrameHandler intermediate handler, with Discard, with Discard after a few bytes of a text message made of multi-byte characters under UTF-8 checking, and with MaxFrameSize equal to the largest frame, NextReader, ReadMessage, ReadData, Read*Text, Read*Binary) x 3 chunk plans x 2 caller buffer sizes and compared with the reference reassembly, clean EOF, full consumption, OnContinuation count and pong replies. " +
 			"distinct = (frame-shape signature with bucketed lengths, entry, plan kind, side).",
 		Assumptions: []string{"reference reassembly ref.Reassemble and frame encoder ref.Frame.Encode are correct", "NextReader drops intermediate control frames and ReadMessage returns them before the glued message, as documented"},
-		Subs:        []mon.Sub{subEnum(), subRandom(), subLarge()},
+		Subs:        []mon.Sub{subEnum(), subRandom(), subLarge(), subLongRuns()},
 	})
 }
